@@ -54,7 +54,10 @@ fn raw_items(xml: &str) -> Vec<String> {
 }
 
 fn read_back(bytes: &[u8], n: usize) -> Result<Vec<String>, String> {
-    let wb = load_from_xlsx_bytes(bytes, "c24", "en", "UTC").map_err(|e| format!("{e:?}"))?;
+    // a panic of the importer is an observation (reported with the input), not the end of the run
+    let wb = std::panic::catch_unwind(|| load_from_xlsx_bytes(bytes, "c24", "en", "UTC"))
+        .map_err(|_| "the importer panicked".to_string())?
+        .map_err(|e| format!("{e:?}"))?;
     let ws = &wb.worksheets[0];
     let mut out = Vec::with_capacity(n);
     for i in 0..n {
